@@ -14,9 +14,12 @@ leave the same generated files.
 
 Tie: every invocation is abstracted (argparse verdict, path kinds, listed files with parse
 outcome, option strings, per-model outcome labels) and given to the Lean model `Cli.main`
-(driver `drv_c26`) in both variants: `asis` (the code as it is) and `fixed` (the code with
-proposed_fixes/C26-1.diff).  The implementation must agree with one of them, the same one
-throughout the run.
+(driver `drv_c26`, `Variant.fixed` = the code as it is since commit c313463); outcome kind, status
+and the set of generated files must be equal.
+
+Findings C26-F1..F4 (exceptions escaping / failures not counted with -t sympy, -t casadi without a
+matching file, undecodable file) were fixed by that commit (proposed_fixes/C26-1.diff); their input
+classes stay in the run as the streams `sympyfail`, `nomatch`, `undecodable` and as corpus cases.
 """
 import contextlib
 import io
@@ -214,7 +217,7 @@ def render_argv(inv, rng):
 
 def gen_invocation(rng, world, stream):
     """Structured invocation; `stream` selects the region of the domain:
-    main: no known-finding input class; sympyfail / nomatch / undecodable: the classes of C26-F1..F4."""
+    main: everything else; sympyfail / nomatch / undecodable: the input classes of the (fixed) findings C26-F1..F4."""
     files = world["files"]
     models = world["models"]
     clean_dirs = ["libA", "libB", "libA/sub"]
@@ -620,7 +623,6 @@ def ask_model(drv, ab, variant):
     return ans
 
 
-STATE = {"variant": None}
 _TRUTH = {}
 
 
@@ -679,12 +681,9 @@ def check_invocation(ctx, case, drv, independence=True):
         elif total is not None and ab["target"] == "sympy" and files1 != obs["written"]:
             ctx.violation("generated files with several models differ from those with each model alone",
                           dict(small, singles=singles), expected=files1, observed=obs["written"], kind="input")
-    # ---- the tie: Lean model, both variants
+    # ---- the tie: Lean model of the code as it is (`Variant.fixed`, commit c313463)
     if drv is not None:
-        res = {}
-        for variant in ("asis", "fixed"):
-            a = ask_model(drv, ab, variant)
-            res[variant] = a
+        a = ask_model(drv, ab, "fixed")
         implc = {"kind": obs["kind"], "code": obs.get("code")} if obs["kind"] != "raised" else {"kind": "raised"}
 
         def same(a):
@@ -695,23 +694,14 @@ def check_invocation(ctx, case, drv, independence=True):
             if a["kind"] == "return" and ab["target"] == "sympy" and stage == "models":
                 return sorted(set(a["written"])) == sorted(n[:-3] for n in obs["written"])
             return True
-        ok = [v for v in ("asis", "fixed") if same(res[v])]
-        differ = not same(res["asis"]) or not same(res["fixed"])
-        if not ok:
-            ctx.disagreement("cli.main", small, model={v: {k: res[v].get(k) for k in ("kind", "code", "written")} for v in res},
-                             impl=dict(implc, written=sorted(obs["written"])))
-        elif differ:
-            v = ok[0]
-            ctx.count("impl-follows:" + v)
-            if STATE["variant"] is None:
-                STATE["variant"] = v
-            elif STATE["variant"] != v:
-                ctx.disagreement("cli.variant-mixed", small, model="implementation followed '%s' earlier in this run" % STATE["variant"],
-                                 impl="follows '%s' here" % v)
-        # the fixed variant is the property: cross-check the Python oracle against the proved model
-        fx = res["fixed"]
-        if fx["kind"] == "raised" or fx["code"] != exp:
-            raise HarnessError("direct oracle and Cli.main(fixed) differ on %s: %s vs %s" % (argv, exp, fx))
+        if not same(a):
+            o = ask_model(drv, ab, "old")
+            ctx.disagreement("cli.main", small, model={k: a.get(k) for k in ("kind", "code", "written")},
+                             impl=dict(implc, written=sorted(obs["written"]),
+                                       note="equals the model of the code before c313463" if same(o) else None))
+        # cross-check the Python oracle against the proved model
+        if a["kind"] == "raised" or a["code"] != exp:
+            raise HarnessError("direct oracle and Cli.main differ on %s: %s vs %s" % (argv, exp, a))
     return obs, exp, stage
 
 
@@ -731,7 +721,6 @@ def make_case(ctx, rng, world, stream):
 def run(ctx):
     drv = ctx.driver("drv_c26")
     _TRUTH.clear()
-    STATE["variant"] = None
     quick = ctx.tier == "quick"
     from harness import corpus
     for c in corpus.load("C26"):
@@ -761,7 +750,6 @@ def run(ctx):
             n += 1
         shutil.rmtree(os.path.join(ctx.scratch, "c26-" + world["id"]), ignore_errors=True)
         _TRUTH.clear()
-    ctx.extra["impl_follows_variant"] = STATE["variant"] or "asis-and-fixed-indistinguishable-on-this-run"
     ctx.extra["exhaustive"] = False
 
 
@@ -791,7 +779,7 @@ MANIFEST = dict(
                "each model comes from pymoca's API called outside the CLI, and a per-model independence oracle.",
     level_note="Trusted: Lean kernel + standard axioms; the harness (generator, abstraction of an invocation, the staged reading "
                "of the property stated in ASSUMPTIONS); argparse. The theorems are about the model; the model is compared with "
-               "the code on every run in two variants (as-is, and with proposed_fixes/C26-1.diff).",
+               "the code on every run.",
     technique="Lean 4 proof (induction over the model / file lists) + model/implementation correspondence + direct oracle",
 )
 READY = False
